@@ -158,24 +158,26 @@ theorem rule_parsed_as_denoted (cfg : Cfg) (name cat : String) (cutoffKb nbhKb :
 theorem distances_scaled (kb : Nat) (mul : Nat × Nat) : scale (kb * 1000) mul = distance kb mul := rfl
 
 /-- the same for a whole alias-free file of one or more written rules, each with an optional
-    `SUPERIORS` section, under any multipliers: `Parser.__init__` on the file's tokens stores exactly
-    the rules the grammar denotes, in order — distances `int(kb * 1000 * multiplier)`, superiors the
+    `SUPERIORS` section, under any multipliers: `Parser.__init__` on the file's tokens (after the rules `earlier` of other
+    files) stores exactly the rules the grammar denotes, in order — distances `int(kb * 1000 * multiplier)`, superiors the
     declared ones closed over the superiors of each of them (`closeSup`), conditions the objects of
     the syntax tree.  `srcsOk` is what the text must satisfy to be legal: known category and
     profiles, a name not used before, operands not repeated, something positive, superiors distinct
     and defined earlier.  (No fuel hypothesis: the model's own budget suffices.) -/
-theorem file_parsed_as_denoted (cfg : Cfg) (rs : List RuleSrc) (hne : rs ≠ [])
-    (hok : srcsOk cfg [] rs = true) :
-    parseTokens cfg [] [] (rs.flatMap ruleSrcToks) = .ok (denote cfg [] rs, []) :=
-  parseTokens_file cfg rs hne hok
+theorem file_parsed_as_denoted (cfg : Cfg) (earlier : List Rule) (rs : List RuleSrc) (hne : rs ≠ [])
+    (hok : srcsOk cfg earlier rs = true) :
+    parseTokens cfg earlier [] (rs.flatMap ruleSrcToks) = .ok (denote cfg earlier rs, []) :=
+  parseTokens_file cfg earlier rs hne hok
 
-/-- … and so for `create_rules` on any text the tokeniser reads as those tokens (any layout and
-    comments, by `tokenise_layout`) -/
-theorem file_created_as_denoted (cfg : Cfg) (text : String) (rs : List RuleSrc) (hne : rs ≠ [])
-    (hok : srcsOk cfg [] rs = true) (htok : tokenise text = .ok (rs.flatMap ruleSrcToks)) :
-    createRules cfg [text] [] [] = .ok (denote cfg [] rs) := by
-  simp only [createRules, parseText, bind, Except.bind, htok, parseTokens_file cfg rs hne hok]
-  rfl
+/-- … and so for `create_rules` on any number of files, each a text the tokeniser reads as the
+    tokens of its written rules (any layout and comments, by `tokenise_layout`): the rules of all
+    files in order, every rule seeing the rules of earlier files (duplicate names and superiors
+    across files included in `srcsOk`) -/
+theorem files_created_as_denoted (cfg : Cfg) (files : List (String × List RuleSrc))
+    (hf : ∀ f ∈ files, f.2 ≠ [] ∧ tokenise f.1 = .ok (f.2.flatMap ruleSrcToks))
+    (hok : srcsOk cfg [] (files.flatMap (·.2)) = true) :
+    createRules cfg (files.map (·.1)) [] [] = .ok (denote cfg [] (files.flatMap (·.2))) :=
+  createRules_files cfg files [] hf hok
 
 /-- non-vacuity: three rules, the third below the second which is below the first; fungal
     multipliers 1/2 and 3/2 -/
@@ -255,6 +257,47 @@ theorem alias_is_substitution (fuel : Nat) (cfg : Cfg) (s : PS) (hf : Flat s.ali
 theorem alias_is_substitution_rule (cfg : Cfg) (s : PS) (hf : Flat s.aliases) :
     RelS RuleRel (parseRule cfg (strip s)) (parseRule cfg s) :=
   parseRule_rel hf cfg
+
+/-- thm 4 and completeness together: a rule whose CONDITIONS are written *with aliases* — any state
+    with a flat table whose substituted input is the mandatory sections followed by tokens `w` that
+    read (type and text; the `aliased` flags the substituted tokens carry do not matter) like the
+    rendering of a legal syntax tree `t`, then the next `RULE`/`DEFINE` or the end — is parsed into
+    the rule the grammar denotes for the substituted text. -/
+theorem aliased_rule_parsed_as_denoted (cfg : Cfg) (s : PS) (hf : Flat s.aliases) (name cat : String)
+    (cutoffKb nbhKb : Nat) (t : OrE) (w k cons : List Tok) (rules : List Rule)
+    (hs : strip s = ofStream (hdrToks name cat cutoffKb nbhKb ++ w ++ k) cons rules)
+    (hw : w.map Tok.key = (ppOr t).map Tok.key)
+    (hcat : cfg.cats.contains cat = true) (ht : okTop t = true) (hpos : positive (shapeTop t) = true)
+    (hk : headType k = none ∨ headType k = some .rule ∨ headType k = some .define) :
+    ∃ r' s', parseRule cfg s = .ok (r', s') ∧ r'.name = name ∧ r'.category = cat ∧
+      r'.cutoff = cutoffKb * 1000 ∧ r'.neighbourhood = nbhKb * 1000 ∧ r'.conditions = shapeTop t ∧
+      strip s' = ofStream k ((hdrToks name cat cutoffKb nbhKb ++ w).reverse ++ cons) rules := by
+  have h := parseRule_rel hf cfg
+  have ht' := ht
+  simp only [okTop, Bool.and_eq_true, Bool.not_eq_true'] at ht'
+  have g := okOr_goods false t ht'.1.1 ht'.1.2
+  rw [hs, parseRule_keys cfg name cat cutoffKb nbhKb (shapeOr t) w k cons rules hcat (shapeOr_ne_nil t)
+    g.shape g.norep ht'.2 (by rw [hw, ppOr_keys]) hpos hk] at h
+  cases hp : parseRule cfg s with
+  | error e => rw [hp] at h; exact h.elim
+  | ok v =>
+    obtain ⟨r', s'⟩ := v
+    rw [hp] at h
+    obtain ⟨⟨h1, h2, h3, h4, h5, _⟩, hst⟩ := h
+    exact ⟨r', s', rfl, h1.symm, h2.symm, h3.symm, h4.symm, h5.symm, hst.symm⟩
+
+/-- non-vacuity: `DEFINE x AS a or b` in force, the text `… CONDITIONS x and c` reads after
+    substitution like `a or b and c` = `a or (b and c)` -/
+example :
+    let x : List Tok := [⟨"a", .identifier, true⟩, ⟨"or", .orOp, true⟩, ⟨"b", .identifier, true⟩]
+    let s : PS := { cur := some (kw "RULE" .rule),
+                    rest := (hdrToks "r" "cat" 20 5).tail ++ [tId "x", kw "and" .andOp, tId "c"],
+                    aliases := [("x", x)], rules := [] }
+    strip s = ofStream (hdrToks "r" "cat" 20 5 ++ (x ++ [kw "and" .andOp, tId "c"]) ++ []) [] [] ∧
+    (x ++ [kw "and" .andOp, tId "c"]).map Tok.key =
+      (ppOr (.or (.one (.id false "a")) (.one (.and (.id false "b") (.one (.id false "c")))))).map Tok.key := by
+  intro x s
+  exact ⟨by rfl, by decide +kernel⟩
 
 /-- what `strip` is on the state a `Parser` starts a rule in: no aliases, input `t :: subst A rest` -/
 example (t : Tok) (rest : List Tok) (A : Aliases) (rules : List Rule) :
@@ -391,25 +434,7 @@ theorem fuel_never_exhausted (cfg : Cfg) (files : List String) :
     createRules cfg files [] [] ≠ .error .fuel :=
   createRules_nf cfg files [] [] ⟨by simp, by simp, by simp⟩
 
-/-! ### non-vacuity: each listed class of ill-formed input on a concrete text -/
+/-! non-vacuity of the rejection theorems, each listed class of ill-formed input on a concrete text:
+    `Props/C02Examples.lean` (split off to keep this file's build time down) -/
 
-def exCfg : Cfg := { sigs := ["a", "b", "c"], cats := ["cat"] }
-def exHead (name : String) : String := "RULE " ++ name ++ " CATEGORY cat CUTOFF 20 NEIGHBOURHOOD 5 CONDITIONS "
-def exErr (files : List String) : Option Err :=
-  match createRules exCfg files [] [] with
-  | .error e => some e
-  | .ok _ => none
-
-example : exErr [exHead "r" ++ "a and (b or not c)"] = none := by decide +kernel
-example : exErr [exHead "r" ++ "a and zz"] = some .value := by decide +kernel                      -- unknown profile
-example : exErr ["RULE r CATEGORY nope CUTOFF 1 NEIGHBOURHOOD 1 CONDITIONS a"] = some .syntax := by decide +kernel
-example : exErr [exHead "r" ++ "a", exHead "r" ++ "b"] = some .value := by decide +kernel          -- duplicate rule, second file
-example : exErr ["DEFINE x AS a DEFINE x AS b " ++ exHead "r" ++ "a"] = some .syntax := by decide +kernel  -- duplicate alias
-example : exErr ["DEFINE x AS a or x " ++ exHead "r" ++ "x"] = some .value := by decide +kernel    -- D42
-example : exErr [exHead "r" ++ "a or (a)"] = some .value := by decide +kernel                      -- repeated operand
-example : exErr [exHead "r" ++ "(a or b"] = some .syntax := by decide +kernel                      -- unbalanced
-example : exErr [exHead "r" ++ "cds(a)"] = some .syntax := by decide +kernel
-example : exErr [exHead "r" ++ "not a and not (b or c)"] = some .value := by decide +kernel        -- nothing positive
-example : exErr ["RULE r CATEGORY cat SUPERIORS s CUTOFF 1 NEIGHBOURHOOD 1 CONDITIONS a " ++ exHead "s" ++ "b"]
-    = some .value := by decide +kernel                                                              -- superior defined later
 end ASV.C02
